@@ -1054,7 +1054,7 @@ def model_line(case):
             for wi in wis:
                 ops.append(["S", wi if wi is not None else 999])
         # numprocesses only bounds the worker ids here: the model is not told about the deaths in between
-        ws = [dict(w, pipe_out=False, pipe_err=False, np=10 ** 6) for w in case["watchers"]]
+        ws = [dict(w, pipe_out=False, pipe_err=False, np=2000) for w in case["watchers"]]
         return _line(case, ws, ops, base)
     return "sock run 0 0 0 0"
 
@@ -1338,7 +1338,7 @@ def _oracle_steps(case, steps, recs_of, fails):
             startup, bad = _startup(case, st)
             running = True
             for b in bad:
-                fails.append(_fail("C07:not-listening-after-initialize",
+                fails.append(_fail("C07:not-listening-inheritable-after-initialize",
                                    "step %d: socket %r (fd %r) is %r after initialize" % ((n,) + b)))
                 return
         if ph != "r":
@@ -1471,6 +1471,9 @@ def stats(cases, impl):
                 out["spawn_false"] += 1
             for r in st["recs"]:
                 out["spawns"] += 1
+                if "photo" in r:
+                    out["reuseport_temp_sockets"] += max(0, sum(1 for e in r["photo"] if e[2] == "s")
+                                                         - sum(1 for _, fd in st["socks"] if fd is not None))
                 wi = r["w"] if "w" in r else (int(r["name"][1:]) if r.get("name") else None)
                 if wi is None:
                     continue
